@@ -45,7 +45,9 @@ def run(run):
     return run.finish(
         level="proof",
         rule="a deterministic corpus first (one minimal witness per known finding, one per defect fixed in /repo that must now pass), then generated: "
-             "tables of 0-50 rows x 1-6 columns; cells NULL / strings / integers / floats / booleans / ternaries / datetimes; string texts composed from "
+             "tables of 0-50 rows x 1-6 columns, plus a size band of 280-700 records x 2-3 short columns around the loaders' prepared capacity "
+             "(fileLoadingPreparedRecordSetCap = 300: 298-303, 301-380, 280-700) in the decode stream (CSV/TSV/LTSV/fixed, model = implementation) and in the "
+             "write-then-read law (all six formats; law roundtrip:<fmt>:record_count); cells NULL / strings / integers / floats / booleans / ternaries / datetimes; string texts composed from "
              "delimiters (, ; | TAB blank :), quotation marks, backslashes, CR, LF, CRLF, leading/trailing blanks, non-ASCII (Latin-1, CJK, half-width kana, "
              "astral, NBSP, U+3000, U+2028, U+0085, U+FEFF, combining, zero-width), control characters, empty; header names simple or from the same "
              "repertoire; all six formats x LF/CRLF/CR x enclose-all x without-header x strip-ending-line-break x without-null x allow-uneven-fields x "
